@@ -266,7 +266,7 @@ fn fn_start(vis: Option<&syn::Visibility>, sig: &syn::Signature) -> usize {
 ///   impl Tr for T :: fn NAME       (T and Tr compared on normalised source text, generics included)
 ///   macro NAME #k                  (k-th top-level invocation of NAME!, 0-based)
 fn find_item<'a>(src: &str, items: &'a [syn::Item], sel: &str) -> Result<Found<'a>, String> {
-    let parts: Vec<&str> = sel.split("::").map(|s| s.trim()).collect();
+    let parts: Vec<&str> = sel.split(" :: ").map(|s| s.trim()).collect();
     let mut flat: Vec<&'a syn::Item> = Vec::new();
     fn flatten<'a>(items: &'a [syn::Item], out: &mut Vec<&'a syn::Item>) {
         for it in items {
